@@ -132,6 +132,9 @@ pub fn gen_world_cfg(s: &mut Src, prof: &Profile) -> WorldCfg {
             }
         }
     }
+    // one world in four is built in stages: its denoms start with other decimals, the first pair is created,
+    // the denoms are re-registered with their final decimals and only then the other pairs are created
+    let staged_decimals: Vec<u8> = if s.chance(1, 4) { native_decimals.iter().map(|d| if s.bool() { (*d + 1 + s.below(17) as u8) % 19 } else { *d }).collect() } else { vec![] };
     WorldCfg {
         native_decimals,
         token_decimals,
@@ -142,6 +145,7 @@ pub fn gen_world_cfg(s: &mut Src, prof: &Profile) -> WorldCfg {
         allowance: 1u128 << 124,
         denoms,
         unregistered: vec![],
+        staged_decimals,
     }
 }
 
